@@ -297,6 +297,7 @@ _MG = "chess-movegen/src/lib.rs"
 host("chess-movegen", _MG, "verif_geom", "spec/geom.rs", pub=True)
 host("chess-movegen", _MG, "verif_rules", "spec/rules.rs", pub=True)
 host("chess-movegen", _MG, "kani_verif_common", "harness/chess-movegen/common.rs")
+host("chess-movegen", _MG, "kani_verif_deps", "harness/chess-movegen/deps.rs")
 host("chess-movegen", _MG, "kani_verif_c06", "harness/chess-movegen/c06.rs")
 SPEC_PROPS.update(["C01", "C02", "C03", "C05", "C06", "C07", "C10"])
 ob("C06.validate.sound", ["C06"], "chess-movegen", "kani_verif_c06::c06_validate_sound", kind="complete", flags="full", timeout=1800, mem_gb=8,
